@@ -145,6 +145,10 @@ class _Recorder:
         def from_numpy(cls, **kw):
             return cls(**kw)
 
+        @property
+        def score(self):            # BottomUpPredictor sorts by `.score` when max_instances is set
+            return self.instance_score
+
     class LabeledFrame:
         def __init__(self, video=None, frame_idx=None, instances=None):
             self.video, self.frame_idx, self.instances = video, frame_idx, instances
@@ -424,3 +428,23 @@ def run_predictor(pred, provider: str, video, labels):
             (np.asarray(i.points, dtype=np.float64), np.asarray(i.point_scores, dtype=np.float64),
              float(i.instance_score)) for i in lf.instances]))
     return res, raw, flags
+
+
+def build_bottomup_predictor(mods, scene, cfg):
+    """cfg: dict(os, paf_os, scale, max_stride, max_h, max_w, batch, refinement, max_instances)."""
+    torch, OmegaConf, predictors = mods
+    stub = make_stub(torch, "bottomup", scene, cfg["os"], paf_stride=cfg["paf_os"], paf_sigma=cfg.get("paf_sigma", 4.0))
+    names = [f"n{k}" for k in range(scene.n_nodes)]
+    conf = base_cfg(OmegaConf, "bottomup", cfg["os"], cfg["scale"], cfg["max_stride"], cfg["max_h"], cfg["max_w"],
+                    extra_head={"confmaps": {"output_stride": cfg["os"], "part_names": names},
+                                "pafs": {"output_stride": cfg["paf_os"],
+                                         "edges": [[names[a], names[b]] for a, b in scene.edges]}})
+    pre = OmegaConf.create({"is_rgb": True, "crop_hw": None, "max_width": None, "max_height": None,
+                            "anchor_ind": None})
+    p = predictors.BottomUpPredictor(
+        bottomup_config=conf, bottomup_model=stub, backbone_type="unet", skeletons=["skeleton"],
+        peak_threshold=0.2, integral_refinement=cfg.get("refinement"), integral_patch_size=5,
+        batch_size=cfg["batch"], max_instances=cfg.get("max_instances"), return_confmaps=False, device="cpu",
+        preprocess_config=pre)
+    p._initialize_inference_model()
+    return p, stub
